@@ -457,8 +457,21 @@ def crypto_facts(tree: ast.Module, path: Path) -> str:
     site_n = f"{path}:normalize_key"
     nb = _body(_func(tree, "normalize_key", site_n))
     want_nk = E("len(key) == _KEY_LEN")
-    if not (len(nb) == 2 and isinstance(nb[0], ast.If) and ast.dump(nb[0].test) == want_nk and isinstance(nb[1], ast.Return)):
-        raise TranslationBroken(site_n, "normalize_key changed shape")
+    ok_nk = (
+        len(nb) == 2
+        and isinstance(nb[0], ast.If)
+        and not nb[0].orelse
+        and ast.dump(nb[0].test) == want_nk
+        and len(nb[0].body) == 1
+        and isinstance(nb[0].body[0], ast.Return)
+        and nb[0].body[0].value is not None
+        and ast.dump(nb[0].body[0].value) == E("key")
+        and isinstance(nb[1], ast.Return)
+        and nb[1].value is not None
+        and ast.dump(nb[1].value) == E("hashlib.sha256(key).digest()")
+    )
+    if not ok_nk:
+        raise TranslationBroken(site_n, "normalize_key is not `if len(key) == _KEY_LEN: return key; return hashlib.sha256(key).digest()`")
     return "".join(f"Definition gen_crypto{k} : N := {env[k]}.\n" for k in ("_KEY_LEN", "_NONCE_LEN", "_TAG_LEN", "_VERSION_LEN", "_MIN_TOKEN_LEN"))
 
 
